@@ -73,6 +73,8 @@ CHECKS = {
          "§7 C20", "Trusted base: ibc-go packet (de)serialisation used to decode the recorded packet (cross-checked by a hand-written wire reader)."),
 }
 
+BASELINE_CMD = "for m in $(cat /w/out/gomods.txt); do MF=$(cd /repo/$m && . /w/out/goenv.sh && gomodflag); (cd /repo/$m && go test $MF -json -vet=off -count=1 -timeout 25m ./...); done"
+
 PENDING_REASON = "check not built yet in this session (under construction; see DESIGN.md §7 for the planned model-checking design)"
 
 def main():
@@ -102,7 +104,7 @@ def main():
         "hooks": {
             "guard": "verif",
             "enable": "go build -tags verif (scripts/build.sh builds /verif/harness, whose go.mod replaces the regen modules by /repo paths, so /repo's current working tree is compiled)",
-            "baseline_off_cmd": "for m in . api types x/data x/ecocredit x/intertx; do (cd /repo/$m && GOFLAGS=-mod=mod go test -vet=off -count=1 -timeout 25m ./...); done",
+            "baseline_off_cmd": json.load(open("/root/.vp/BASELINE.json"))["cmd"] if os.path.exists("/root/.vp/BASELINE.json") else BASELINE_CMD,
             "source_commits": [h.split()[0] for h in hooks],
             "add_only": True,
         },
